@@ -89,7 +89,11 @@ func (w *world) Run(t *rt.Tape, trace bool) *core.Result {
 		for _, p := range ps {
 			p := p
 			rt.GoParty(fmt.Sprintf("p%d", p.id), "main", func() {
-				defer func() { p.done = true }()
+				defer func() {
+					if !rt.Unwinding() { // blocked tasks are unwound at the end of a run
+						p.done = true
+					}
+				}()
 				if p.id != 0 {
 					rt.Sleep(joinDelay[p.id])
 					p.nw, p.joinErr = p2p.Join(ps[0].addr, p.addr, p.id, k)
